@@ -57,6 +57,53 @@ def alloc_step(versions, N):
     return fn
 
 
+def history(versions, k):
+    """From the EMPTY gateway through the pump only: k node presentations with unbounded symbolic
+    integer header fields - whatever the validator lets through becomes part of the network -
+    each followed by an id request.  Every id handed
+    out lies in 1..254, is not a known node at that moment and was not handed out before."""
+    def fn(w):
+        version = w.pick(versions, "version")
+        env = C.make_env(w)
+        with env.installed():
+            g = C.make_gateway(w, version)
+            handed = []
+            w.info = {"version": version, "lines": []}
+            for i in range(k):
+                fields = [w.fresh_int(f"l{i}.{n}") for n in C.FIELDS[:5]]
+                # nodes enter the network through presentations (and id requests, below)
+                w.assume_fast(w.and_(w.eq(fields[2], 0), w.or_(w.eq(fields[4], 17),
+                                                               w.eq(fields[4], 18))))
+                line = C.structured_line(w, fields, "2.0")
+                w.info["lines"].append(line)
+                del g.conn.written[:]
+                if C.classify(w, version, line) == "accepted":
+                    try:
+                        C.step_line(w, g, line)
+                    except Exception as exc:
+                        w.escaped(exc, "pump raised")
+                req = id_request(w, version)
+                w.info["lines"].append(req)
+                pre = list(g.gw.sensors.keys())
+                del g.conn.written[:]
+                try:
+                    C.step_line(w, g, req)
+                except Exception as exc:
+                    w.escaped(exc, "id request raised")
+                p = response_id(w, g, f"id request {i + 1}")
+                if p is None:
+                    w.goal("no-response")
+                    continue
+                w.goal("response")
+                w.check(w.and_(w.le(1, p), w.le(p, 254)), "handed-out id outside 1..254")
+                for known in pre:
+                    w.check(w.ne(p, known), "handed-out id equals a known node id")
+                for old in handed:
+                    w.check(w.ne(p, old), "id handed out twice")
+                handed.append(p)
+    return fn
+
+
 def restart(versions, fmts, N):
     def fn(w):
         version = w.pick(versions, "version")
@@ -65,7 +112,7 @@ def restart(versions, fmts, N):
         tick = w.flag("save_tick_between")
         fs = P.make_fs(w, fmt)
         with fs.installed():
-            g = P.pgateway(w, version, fmt)
+            g = P.pgateway(w, version, fmt, cb_raises=C.sym_flag(w, "callback_raises"))
             ids = C.gen_network(w, g, ["bare"] * n)
             pers = g.gw.tasks.persistence
             pers.need_save = False
@@ -155,6 +202,10 @@ def build(tier):
                 {"known_nodes": f"0..{N} with symbolic ids in 0..255"},
                 goals=["response", "no-response"],
                 doc="id request from an arbitrary id constellation"),
+        Harness("history", history(["1.4", "2.2"] if q else C.VERSIONS, 2 if q else 3),
+                {"events": f"{2 if q else 3} x (node presentation, id request)",
+                 "fields": "unbounded ints (node, child, ack)"}, goals=["response"],
+                doc="ids handed out after arbitrary accepted traffic from the empty gateway"),
         Harness("stop-restart", restart(["1.4", "2.2"] if q else C.VERSIONS, ["json", "pickle"], N),
                 {"known_nodes": f"0..{N}", "formats": ["json", "pickle"]},
                 goals=["two-ids"],
